@@ -93,7 +93,7 @@ Qed.
 (** * The facts the property needs *)
 Lemma cfg_ok_inv c : cfg_ok c = true ->
   none_is_true c = true /\ list_op c = And /\ where_requalifies c = true /\ where_strips_alias c = true
-  /\ set_requalifies c = true /\ target_is_phys_update c = true /\ target_is_phys_delete c = true
+  /\ set_requalifies c = true /\ target_update c = TScan /\ target_delete c = TScan
   /\ update_has_where c = true /\ delete_has_where c = true
   /\ ensure_cte_update c = true /\ ensure_cte_delete c = true
   /\ build_session_calls c = 0%nat /\ execute_session_calls c = 1%nat.
@@ -102,6 +102,8 @@ Proof.
   repeat (apply andb_true_iff in H; destruct H as [H ?]).
   repeat split; auto.
   - destruct (list_op c); try discriminate; reflexivity.
+  - destruct (target_update c); try discriminate; reflexivity.
+  - destruct (target_delete c); try discriminate; reflexivity.
   - apply Nat.eqb_eq; assumption.
   - apply Nat.eqb_eq; assumption.
 Qed.
@@ -322,11 +324,20 @@ Qed.
 Lemma assign_row_ext cs look1 look2 r : (forall n, look1 n = look2 n) -> assign_row cs look1 r = assign_row cs look2 r.
 Proof. intro H. unfold assign_row. apply map_ext. intro cv. rewrite H. reflexivity. Qed.
 
+Lemma points_to_inv name st : points_to name st = true ->
+  names_table name (tref st) = true /\ bare name = phys st.
+Proof.
+  unfold points_to. intro H. apply andb_true_iff in H. destruct H as [H1 H2].
+  apply String.eqb_eq in H2. split; assumption.
+Qed.
+
 Theorem compile_exact c st cs k :
   cfg_ok c = true -> call_ok c st cs k = true ->
   exists s, compile c st k = inr s
+    /\ stmt_target s = tref st
     /\ forallb (resolvable (phys st) cs) (stmt_exprs s) = true
-    /\ forall rows, exec (phys st) cs rows s = inr (spec_rows cs k rows, spec_count cs k rows).
+    /\ forall name rows, points_to name st = true ->
+         exec name cs rows s = inr (spec_rows cs k rows, spec_count cs k rows).
 Proof.
   intros Hc Hk. destruct (cfg_ok_inv c Hc) as (_ & _ & _ & _ & _ & Htpu & Htpd & Hhwu & Hhwd & Heu & Hed & _).
   destruct k as [set w|w]; simpl in Hk.
@@ -334,15 +345,16 @@ Proof.
     destruct (compile_where_sound c st cs w Hc Hw) as (p & Ep & Hpa & Hpr & Hph).
     destruct (compile_set_from_sound c st cs set Hc Hs []) as (us & Eus & [Hg1 Hg2] & Hassoc).
     { split; reflexivity. }
-    exists (SUpdate (phys st) us (Some p)). unfold compile. rewrite Heu. simpl.
+    exists (SUpdate (tref st) us (Some p)). unfold compile. rewrite Heu. simpl.
     rewrite Ep. unfold compile_set. rewrite Eus. unfold target, wrap_where. rewrite Htpu, Hhwu.
-    split; [reflexivity|].
+    split; [reflexivity|]. split; [reflexivity|].
     assert (Hres : forallb (resolvable (phys st) cs) (map snd us ++ [p]) = true).
     { rewrite forallb_app. simpl. rewrite Hpr, andb_true_r. rewrite forallb_map'.
       revert Hg1. apply forallb_impl. intros kv H. unfold entry_good in H.
       apply andb_true_iff in H. destruct H as [H _]. apply andb_true_iff in H. destruct H as [_ H]. exact H. }
-    split; [exact Hres|]. intro rows. unfold exec, stmt_syntax_ok, stmt_binds. cbn [stmt_exprs stmt_keys stmt_target stmt_where olist].
-    rewrite String.eqb_refl, Hres, Hg2.
+    split; [exact Hres|]. intros name rows Hpt. destruct (points_to_inv name st Hpt) as [Hnt Hbare].
+    unfold exec, stmt_syntax_ok, stmt_binds. cbn [stmt_exprs stmt_keys stmt_target stmt_where olist].
+    rewrite Hnt, Hbare, Hres, Hg2.
     assert (Hsyn : forallb (fun e => negb (has_alias e)) (map snd us ++ [p]) = true).
     { rewrite forallb_app. simpl. rewrite Hpa. simpl. rewrite andb_true_r. rewrite forallb_map'.
       revert Hg1. apply forallb_impl. intros kv H. unfold entry_good in H.
@@ -356,35 +368,36 @@ Proof.
       apply assign_row_ext. intro n. rewrite Hassoc. reflexivity.
     + unfold spec_count. simpl. f_equal. apply filter_ext'. intro r. simpl. apply Hph.
   - destruct (compile_where_sound c st cs w Hc Hk) as (p & Ep & Hpa & Hpr & Hph).
-    exists (SDelete (phys st) (Some p)). unfold compile. rewrite Hed. simpl.
+    exists (SDelete (tref st) (Some p)). unfold compile. rewrite Hed. simpl.
     rewrite Ep. unfold target, wrap_where. rewrite Htpd, Hhwd.
-    split; [reflexivity|]. split; [simpl; rewrite Hpr; reflexivity|].
-    intro rows. unfold exec, stmt_syntax_ok, stmt_binds. cbn [stmt_exprs stmt_keys stmt_target stmt_where olist].
-    rewrite String.eqb_refl. simpl. rewrite Hpa, Hpr. simpl. f_equal. f_equal.
+    split; [reflexivity|]. split; [reflexivity|]. split; [simpl; rewrite Hpr; reflexivity|].
+    intros name rows Hpt. destruct (points_to_inv name st Hpt) as [Hnt Hbare].
+    unfold exec, stmt_syntax_ok, stmt_binds. cbn [stmt_exprs stmt_keys stmt_target stmt_where olist].
+    rewrite Hnt, Hbare. simpl. rewrite Hpa, Hpr. simpl. f_equal. f_equal.
     + apply filter_ext'. intro r. rewrite Hph. reflexivity.
     + unfold spec_count. simpl. f_equal. apply filter_ext'. intro r. apply Hph.
 Qed.
 
-Theorem run_exact c st cs rows k :
-  cfg_ok c = true -> call_ok c st cs k = true ->
-  run c st (phys st) cs rows k = inr (spec_rows cs k rows, spec_count cs k rows).
+Theorem run_exact c st name cs rows k :
+  cfg_ok c = true -> points_to name st = true -> call_ok c st cs k = true ->
+  run c st name cs rows k = inr (spec_rows cs k rows, spec_count cs k rows).
 Proof.
-  intros Hc Hk. destruct (compile_exact c st cs k Hc Hk) as (s & Es & _ & Hx).
-  unfold run. rewrite Es. apply Hx.
+  intros Hc Hpt Hk. destruct (compile_exact c st cs k Hc Hk) as (s & Es & _ & _ & Hx).
+  unfold run. rewrite Es. apply Hx. exact Hpt.
 Qed.
 
 (** ** The statements of DESIGN.md, as corollaries *)
-Theorem update_exact c st cs rows set w :
-  cfg_ok c = true -> call_ok c st cs (CUpdate set w) = true ->
-  exists n, run c st (phys st) cs rows (CUpdate set w) =
+Theorem update_exact c st name cs rows set w :
+  cfg_ok c = true -> points_to name st = true -> call_ok c st cs (CUpdate set w) = true ->
+  exists n, run c st name cs rows (CUpdate set w) =
     inr (map (fun r => if spec_sel cs w r
                        then assign_row cs (fun n => assoc_last n (spec_set set)) r else r) rows, n).
-Proof. intros Hc Hk. eexists. apply (run_exact c st cs rows _ Hc Hk). Qed.
+Proof. intros Hc Hpt Hk. eexists. apply (run_exact c st name cs rows _ Hc Hpt Hk). Qed.
 
-Theorem delete_exact c st cs rows w :
-  cfg_ok c = true -> call_ok c st cs (CDelete w) = true ->
-  exists n, run c st (phys st) cs rows (CDelete w) = inr (filter (fun r => negb (spec_sel cs w r)) rows, n).
-Proof. intros Hc Hk. eexists. apply (run_exact c st cs rows _ Hc Hk). Qed.
+Theorem delete_exact c st name cs rows w :
+  cfg_ok c = true -> points_to name st = true -> call_ok c st cs (CDelete w) = true ->
+  exists n, run c st name cs rows (CDelete w) = inr (filter (fun r => negb (spec_sel cs w r)) rows, n).
+Proof. intros Hc Hpt Hk. eexists. apply (run_exact c st name cs rows _ Hc Hpt Hk). Qed.
 
 (** a predicate that is NULL (or FALSE, or anything but TRUE) on a row does not select it *)
 Theorem null_pred_selects_nothing cs l p r :
@@ -540,21 +553,21 @@ Lemma run_hist_cons c st name cs w a h :
   run_hist c st name cs w (a :: h) = run_hist c st name cs (step c st name cs w a) h.
 Proof. reflexivity. Qed.
 
-Theorem history_exact c st cs :
-  cfg_ok c = true -> forall h calls w,
+Theorem history_exact c st name cs :
+  cfg_ok c = true -> points_to name st = true -> forall h calls w,
   hist_ok c st cs h = true -> forallb (call_ok c st cs) calls = true ->
   w_built w = map (compile c st) calls ->
-  w_rows (run_hist c st (phys st) cs w h) = spec_hist cs calls (w_rows w) h
-  /\ w_sent (run_hist c st (phys st) cs w h) = (w_sent w + execs_in (List.length calls) h)%nat.
+  w_rows (run_hist c st name cs w h) = spec_hist cs calls (w_rows w) h
+  /\ w_sent (run_hist c st name cs w h) = (w_sent w + execs_in (List.length calls) h)%nat.
 Proof.
-  intro Hc. destruct (cfg_ok_inv c Hc) as (_ & _ & _ & _ & _ & _ & _ & _ & _ & _ & _ & Hb & He).
+  intros Hc Hpt. destruct (cfg_ok_inv c Hc) as (_ & _ & _ & _ & _ & _ & _ & _ & _ & _ & _ & Hb & He).
   induction h as [|a h IH]; intros calls w Hh Hcalls Hbuilt.
   - simpl. rewrite Nat.add_0_r. split; reflexivity.
   - destruct a as [k|i]; simpl in Hh.
     + apply andb_true_iff in Hh. destruct Hh as [Hk Hh].
       rewrite run_hist_cons.
-      destruct (lazy_until_execute c st (phys st) cs w k Hc) as [Er Es].
-      specialize (IH (calls ++ [k])%list (step c st (phys st) cs w (ABuild k)) Hh).
+      destruct (lazy_until_execute c st name cs w k Hc) as [Er Es].
+      specialize (IH (calls ++ [k])%list (step c st name cs w (ABuild k)) Hh).
       destruct IH as [IH1 IH2].
       * rewrite forallb_app. simpl. rewrite Hcalls, Hk. reflexivity.
       * simpl. rewrite Hbuilt, map_app. reflexivity.
@@ -564,8 +577,8 @@ Proof.
       destruct (nth_error calls i) as [k|] eqn:Ei; simpl.
       * assert (Hk : call_ok c st cs k = true).
         { rewrite forallb_forall in Hcalls. apply Hcalls. eapply nth_error_In. exact Ei. }
-        destruct (compile_exact c st cs k Hc Hk) as (s & Es & _ & Hx).
-        rewrite Es, He. simpl. rewrite Hx.
+        destruct (compile_exact c st cs k Hc Hk) as (s & Es & _ & _ & Hx).
+        rewrite Es, He. simpl. rewrite (Hx name _ Hpt).
         specialize (IH calls (mkW (spec_rows cs k (w_rows w)) (w_sent w + 1) (map (compile c st) calls)) Hh Hcalls eq_refl).
         simpl in IH. destruct IH as [IH1 IH2]. rewrite IH1, IH2.
         assert (Hlt : Nat.ltb i (List.length calls) = true).
@@ -599,12 +612,12 @@ Proof.
   apply andb_true_iff in H. destruct H as [H1 H2]. rewrite H1. simpl. apply IH. exact H2.
 Qed.
 
-Theorem sequence_exact c st cs ks rows :
-  cfg_ok c = true -> forallb (call_ok c st cs) ks = true ->
-  w_rows (run_hist c st (phys st) cs (mkW rows 0 []) (seq_actions 0 ks)) = spec_seq cs ks rows.
+Theorem sequence_exact c st name cs ks rows :
+  cfg_ok c = true -> points_to name st = true -> forallb (call_ok c st cs) ks = true ->
+  w_rows (run_hist c st name cs (mkW rows 0 []) (seq_actions 0 ks)) = spec_seq cs ks rows.
 Proof.
-  intros Hc Hks.
-  destruct (history_exact c st cs Hc (seq_actions 0 ks) [] (mkW rows 0 []) (hist_ok_seq c st cs ks 0 Hks) eq_refl eq_refl) as [H _].
+  intros Hc Hpt Hks.
+  destruct (history_exact c st name cs Hc Hpt (seq_actions 0 ks) [] (mkW rows 0 []) (hist_ok_seq c st cs ks 0 Hks) eq_refl eq_refl) as [H _].
   rewrite H. simpl w_rows. apply (spec_hist_seq cs ks [] rows).
 Qed.
 
@@ -647,4 +660,44 @@ Proof.
   destruct k as [set w|w]; simpl; intro H.
   - apply andb_true_iff in H. destruct H as [H1 H2]. rewrite (Hw _ H1), (Hs _ H2). reflexivity.
   - apply Hw. exact H.
+Qed.
+
+(** * The whole database: exactly the addressed table changes, every other table (in particular a table of
+      the same name in the default schema) is left as it was *)
+Lemma addr_eqb_eq a b : addr_eqb a b = true <-> a = b.
+Proof.
+  unfold addr_eqb. destruct a as [a1 a2], b as [b1 b2]. simpl. rewrite andb_true_iff, !String.eqb_eq.
+  split; [intros [-> ->]; reflexivity|intro H; inversion H; auto].
+Qed.
+
+Lemma db_get_set_other a b rows d : a <> b -> db_get b (db_set a rows d) = db_get b d.
+Proof.
+  intro Hne. induction d as [|[x old] d IH]; simpl; [reflexivity|].
+  destruct (addr_eqb x a) eqn:Exa; simpl.
+  - destruct (addr_eqb x b) eqn:Exb; [|reflexivity].
+    apply addr_eqb_eq in Exa, Exb. congruence.
+  - rewrite IH. reflexivity.
+Qed.
+
+Lemma db_get_set_same a rows old d : db_get a d = Some old -> db_get a (db_set a rows d) = Some rows.
+Proof.
+  induction d as [|[x o] d IH]; simpl; [discriminate|].
+  destruct (addr_eqb x a) eqn:Exa; simpl; rewrite Exa; auto.
+Qed.
+
+Theorem db_exact c st cat dflt cs d k a rows :
+  cfg_ok c = true -> call_ok c st cs k = true ->
+  resolve cat dflt (tref st) = Some a -> snd a = phys st -> db_get a d = Some rows ->
+  exists d', run_db c st cat dflt cs d k = inr (d', spec_count cs k rows)
+    /\ db_get a d' = Some (spec_rows cs k rows)
+    /\ forall b, b <> a -> db_get b d' = db_get b d.
+Proof.
+  intros Hc Hk Hr Hn Hg. destruct (compile_exact c st cs k Hc Hk) as (s & Es & Ht & _ & Hx).
+  unfold run_db, exec_db. rewrite Es, Ht, Hr, Hg.
+  assert (Hpt : points_to (mkRef cat dflt (fst a) (snd a)) st = true).
+  { unfold points_to, names_table, bare. simpl. rewrite Hr. destruct a as [a1 a2]. simpl in *.
+    rewrite !String.eqb_refl. subst. rewrite String.eqb_refl. reflexivity. }
+  rewrite (Hx _ rows Hpt). eexists. split; [reflexivity|]. split.
+  - eapply db_get_set_same. exact Hg.
+  - intros b Hb. apply db_get_set_other. congruence.
 Qed.
